@@ -83,25 +83,38 @@ Proof. exact quot_digits. Qed.
 Theorem C14_zstr_roundtrip : forall z, set_string (zstr z) = Some z.
 Proof. exact scan_zstr. Qed.
 
-(* full strength: every decimal whose scale is an int32 *)
-Definition C14_text_roundtrip_all : Prop :=
-  forall d, dec_i32 d -> dec_parse (dec_format d) = Ok d.
-(* false: NewDecimal(5, 0, true) — the flag on a non-zero coefficient — prints "-0." *)
-Theorem C14_text_roundtrip_refuted : ~ C14_text_roundtrip_all.
-Proof.
-  intros H. specialize (H {| d_n := 5; d_scale := 0; d_negzero := true |}).
-  assert (X : dec_i32 {| d_n := 5; d_scale := 0; d_negzero := true |})
-    by (unfold dec_i32, min_i32, max_i32; cbn; lia).
-  specialize (H X). vm_compute in H. discriminate.
-Qed.
-(* true for every decimal whose flag is only set on a zero coefficient (every scale,
-   MinInt32 included: "5d-2147483648" parses back to scale MinInt32) *)
-Theorem C14_text_roundtrip_except_known : forall d, dec_wf d -> dec_parse (dec_format d) = Ok d.
+(* Invariant of the Go type: the scale is an int32 and the negative-zero flag is only set on a
+   zero coefficient.  NewDecimal (the only way to set the flag) establishes it for every
+   argument, ParseDecimal and every operation keep it. *)
+Theorem C14_new_decimal_wf : forall n e nz, dec_wf (new_decimal n e nz).
+Proof. exact new_decimal_wf. Qed.
+Theorem C14_parse_wf : forall inp d, dec_parse inp = Ok d -> dec_wf d.
+Proof. exact dec_parse_wf. Qed.
+Theorem C14_add_wf : forall a b r, dec_i32 a -> dec_i32 b -> add a b = Ok r -> dec_wf r.
+Proof. exact add_wf. Qed.
+Theorem C14_sub_wf : forall a b r, dec_i32 a -> dec_i32 b -> sub a b = Ok r -> dec_wf r.
+Proof. exact sub_wf. Qed.
+Theorem C14_mul_wf : forall a b r, mul a b = Ok r -> dec_wf r.
+Proof. exact mul_wf. Qed.
+Theorem C14_neg_wf : forall d, dec_i32 d -> dec_wf (neg d).
+Proof. exact neg_wf. Qed.
+Theorem C14_abs_wf : forall d, dec_i32 d -> dec_wf (abs d).
+Proof. exact abs_wf. Qed.
+Theorem C14_shiftl_wf : forall d k r, shiftl d k = Ok r -> dec_wf r.
+Proof. exact shiftl_wf. Qed.
+Theorem C14_shiftr_wf : forall d k r, shiftr d k = Ok r -> dec_wf r.
+Proof. exact shiftr_wf. Qed.
+Theorem C14_truncate_wf : forall d p r, dec_wf d -> truncate d p = Ok r -> dec_wf r.
+Proof. exact truncate_wf. Qed.
+
+(* full strength: every decimal NewDecimal can build — any coefficient, any int32 exponent
+   (the model wraps the negation like Go, so MinInt32 is included), any flag argument *)
+Theorem C14_text_roundtrip : forall n e nz,
+  dec_parse (dec_format (new_decimal n e nz)) = Ok (new_decimal n e nz).
+Proof. exact text_roundtrip_new. Qed.
+(* the same for every value of the type that satisfies its invariant *)
+Theorem C14_text_roundtrip_wf : forall d, dec_wf d -> dec_parse (dec_format d) = Ok d.
 Proof. exact text_roundtrip. Qed.
-(* and what exactly happens in the excluded class *)
-Theorem C14_text_roundtrip_flagged : forall d, dec_i32 d -> d_negzero d = true ->
-  dec_parse (dec_format d) = Ok {| d_n := 0; d_scale := d_scale d; d_negzero := true |}.
-Proof. exact text_roundtrip_flagged. Qed.
 
 (* ---- T14.5  String() always prints an Ion decimal literal --------------------------------- *)
 Theorem C14_format_is_literal : forall d, dec_i32 d -> is_decimal_literal (dec_format d) = true.
@@ -143,10 +156,21 @@ Theorem C14_mul_coex_except_known : forall a b r,
   d_n r = d_n a * d_n b /\ coex_exp r = coex_exp a + coex_exp b.
 Proof. exact mul_coex. Qed.
 
-(* ParseDecimal on text that String() never prints: the fraction length is subtracted in int32 *)
-Theorem C14_parse_exponent_wraps :
-  dec_parse (s "0.1d-2147483648") = Ok (new_decimal 1 max_i32 false).
-Proof. vm_compute. reflexivity. Qed.
+(* ParseDecimal on text that String() never prints: the fraction length is subtracted in int64
+   and an exponent below MinInt32 is an error.  (The positive side cannot overflow: ParseInt
+   bounds the exponent text by MaxInt32 and the fraction only lowers it.) *)
+Theorem C14_parse_exponent_exact : forall ip fp e, plain ip -> Forall (fun x => is_dD x = false) fp ->
+  min_i32 <= e <= max_i32 -> zlen fp < two63z - two31 ->
+  dec_parse (ip ++ c_dot :: fp ++ c_d :: zstr e) =
+  if e - zlen fp <? min_i32 then Err else parsed (ip ++ fp) (e - zlen fp).
+Proof. exact parse_exponent_exact. Qed.
+Theorem C14_parsed_exponent : forall str e d, parsed str e = Ok d -> min_i32 < e <= max_i32 -> coex_exp d = e.
+Proof. exact parsed_exponent. Qed.
+Theorem C14_parse_exponent_rejected :
+  dec_parse (s "0.1d-2147483648") = Err /\ dec_parse (s "1.00d-2147483647") = Err /\
+  dec_parse (s "1.5d2147483647") = Ok (new_decimal 15 2147483646 false) /\
+  dec_parse (s "1d2147483648") = Err.
+Proof. vm_compute. repeat split. Qed.
 
 (* ---- non-vacuity: concrete objects meet the hypotheses and compute ---------------------------- *)
 Example C14_ex_add : add (new_decimal 15 (-1) false) (new_decimal 2 3 false) = Ok (new_decimal 20015 (-1) false).
@@ -162,6 +186,9 @@ Example C14_ex_fmt1 : dec_format (new_decimal 15 (-2) false) = s "1.5d-1" /\ dec
 Proof. vm_compute. repeat split. Qed.
 Example C14_ex_wf : dec_wf (new_decimal 0 (-3) true) /\ dec_wf (new_decimal 5 min_i32 false).
 Proof. unfold dec_wf, dec_i32, min_i32, max_i32. vm_compute. repeat split; intros; try discriminate; reflexivity. Qed.
+Example C14_ex_flag : new_decimal 5 0 true = new_decimal 5 0 false /\ dec_format (new_decimal 5 0 true) = s "5."
+  /\ d_negzero (new_decimal 0 0 true) = true.
+Proof. vm_compute. repeat split. Qed.
 Example C14_ex_rt : dec_parse (dec_format (new_decimal (-123456789) (-4) false)) = Ok (new_decimal (-123456789) (-4) false).
 Proof. vm_compute. reflexivity. Qed.
 Example C14_ex_lit : is_decimal_literal (s "1_000.000_1d+07") = true /\ is_decimal_literal (s "01.") = false
